@@ -189,6 +189,26 @@ CREATE OR REPLACE MACRO vtl_string_to_integer(s) AS (
     END
 );
 
+-- String (VARCHAR) -> Duration (VARCHAR): short code (A, S, Q, M, W, D) or its ISO-8601 form
+-- Reference: Duration.explicit_cast from String in DataTypes/__init__.py
+CREATE OR REPLACE MACRO vtl_string_to_duration(s) AS (
+    CASE
+        WHEN s IS NULL THEN NULL
+        WHEN UPPER(TRIM(CAST(s AS VARCHAR))) IN ('A', 'S', 'Q', 'M', 'W', 'D') THEN
+            UPPER(TRIM(CAST(s AS VARCHAR)))
+        ELSE CASE UPPER(TRIM(CAST(s AS VARCHAR)))
+            WHEN 'P1Y' THEN 'A'
+            WHEN 'P6M' THEN 'S'
+            WHEN 'P3M' THEN 'Q'
+            WHEN 'P1M' THEN 'M'
+            WHEN 'P1W' THEN 'W'
+            WHEN 'P7D' THEN 'W'
+            WHEN 'P1D' THEN 'D'
+            ELSE error('Cannot cast String to Duration: ' || CAST(s AS VARCHAR))
+        END
+    END
+);
+
 -- Date (TIMESTAMP) -> TimePeriod (VARCHAR): always daily period
 -- Reference: date_to_period_str(value, 'D') in TimeHandling.py
 CREATE OR REPLACE MACRO vtl_date_to_period(d) AS (
